@@ -186,7 +186,12 @@ def run_property(prop: str, rules_fn: Callable[[Ctx], None], repo: str, tier: st
             if o.verdict == "unknown" and not has_violation:
                 errors.append(f"rule={o.rule} reason=cannot decide {o.key}: {o.reason}")
     except AnalysisError as e:
-        errors.append(f"rule={e.rule} reason={e.reason}")
+        # an anchor vanished in a later rule: the definite violations found by the rules that already ran stand on their own
+        _known = load_known_findings()
+        if ctx is not None and any(o.verdict == "violation" and not any(finding_matches(k, prop, o) for k in _known) for o in ctx.obs):
+            ctx.extra.setdefault("analysis_errors_after_violation", []).append(f"rule={e.rule} reason={e.reason}")
+        else:
+            errors.append(f"rule={e.rule} reason={e.reason}")
     except RecursionError as e:  # pragma: no cover
         errors.append(f"rule=internal reason=RecursionError {e}")
     except Exception as e:  # internal failure is an analysis error, never a violation
